@@ -14,12 +14,17 @@ struct SymRng {
     w: [u32; MAXW], // words handed out so far (little-endian byte order inside a word)
     n: usize,
     budget: usize,  // paths that draw more than `budget` words are cut (stated bound on rejection chains)
+    native_stream: u8, // native replay of harnesses whose sampler is under contract: 0 = solver values, 1 = all zeros, 2 = all ones, 3 = counting
 }
 impl SymRng {
     fn new(budget: usize) -> Self {
-        SymRng { w: [0; MAXW], n: 0, budget }
+        SymRng { w: [0; MAXW], n: 0, budget, native_stream: 0 }
     }
     fn draw(&mut self) -> u32 {
+        if self.native_stream != 0 {
+            self.n += 1;
+            return match self.native_stream { 1 => 0, 2 => u32::MAX, _ => (self.n as u32).wrapping_mul(0x9e37_79b9) };
+        }
         kani::assume(self.n < self.budget && self.n < MAXW);
         let v: u32 = kani::any();
         self.w[self.n] = v;
@@ -180,6 +185,20 @@ macro_rules! urange_shape {
             kani::assume(vc::ref_cmp(&l0, &h0) < 0 || ($which == 3 && vc::ref_cmp(&l0, &h0) == 0));
             let lo = vc::mk_from(&l0);
             let hi = vc::mk_from(&h0);
+            if !vc::symbolic() {
+                // native replay: the real sampler on three deterministic streams (the candidate of the abstract counterexample is not reproducible)
+                let mut st = 1u8;
+                while st <= 3 {
+                    let mut rng = SymRng::new(MAXW);
+                    rng.native_stream = st;
+                    let r = if $which == 0 { rng.gen_biguint_range(&lo, &hi) } else if $which == 1 { UniformBigUint::new(&lo, &hi).sample(&mut rng) }
+                            else if $which == 2 { UniformBigUint::sample_single(&lo, &hi, &mut rng) } else { UniformBigUint::new_inclusive(&lo, &hi).sample(&mut rng) };
+                    let c = vc::ref_cmp(vc::digits(&r), &h0);
+                    kani::assert(vc::is_canonical(&r) && vc::ref_cmp(vc::digits(&r), &l0) >= 0 && (c < 0 || ($which == 3 && c == 0)), "VERIF range sample outside the range");
+                    st += 1;
+                }
+                return;
+            }
             let mut rng = SymRng::new(2);
             let r = if $which == 0 {
                 rng.gen_biguint_range(&lo, &hi)
@@ -219,6 +238,20 @@ macro_rules! irange_shape {
             let hi = mkint($nh, &h0);
             let d = sub_w(&tc::<4>(&hi), &tc::<4>(&lo));
             kani::assume(!is_neg_w(&d) && (!vc::ref_is_zero(&d) || $which == 3));
+            if !vc::symbolic() {
+                let mut st = 1u8;
+                while st <= 3 {
+                    let mut rng = SymRng::new(MAXW);
+                    rng.native_stream = st;
+                    let r = if $which == 0 { rng.gen_bigint_range(&lo, &hi) } else if $which == 1 { UniformBigInt::new(&lo, &hi).sample(&mut rng) }
+                            else if $which == 2 { UniformBigInt::sample_single(&lo, &hi, &mut rng) } else { UniformBigInt::new_inclusive(&lo, &hi).sample(&mut rng) };
+                    let rl = sub_w(&tc::<4>(&r), &tc::<4>(&lo));
+                    let hr = sub_w(&tc::<4>(&hi), &tc::<4>(&r));
+                    kani::assert(int_canonical(&r) && !is_neg_w(&rl) && !is_neg_w(&hr) && (!vc::ref_is_zero(&hr) || $which == 3), "VERIF BigInt range sample outside the range");
+                    st += 1;
+                }
+                return;
+            }
             let mut rng = SymRng::new(2);
             let r = if $which == 0 {
                 rng.gen_bigint_range(&lo, &hi)
